@@ -425,7 +425,7 @@ def c14(tier, seed):
     lock_mc(res, "Lock_base.cfg", "Lock+GlobalQueue", consts={"Sw": '= {"GlobalQueue"}'}, expect="LockSet")
     lock_mc(res, "Lock_base.cfg", "Lock+SortShared", consts={"Sw": '= {"SortShared"}'}, expect="LockSet")
     fams = [("conc", ["-mode", "keyval"]), ("conc", ["-mode", "keyonly"]), ("conc", ["-mode", "sparse"])]
-    shards = conc_shards(fams, seed, 2 if q else 16, 2 if q else 4, 8 if q else 14)
+    shards = conc_shards(fams, seed, 1 if q else 16, 2 if q else 4, 30 if q else 45)
     rs = core.drive_and_validate(res, shards, core.dev_set(), "concurrent transactions are not explained by the serial order of their lock acquisitions (or the mutex / lockset discipline is broken, or the race detector fired)",
                                  "4-16 goroutines x 1-3 databases, mixed View/Update with injected yields, race-instrumented; linearised by the lock hook and validated as sequential histories; lock/access stream validated against LockCore")
     res.cov["samples"] = core.sample_events(rs[0]["trace"], 4, ops={"begin", "commit"}) + core.sample_events(rs[1]["trace"], 4)
@@ -448,7 +448,7 @@ def c17(tier, seed):
     lock_mc(res, "Lock_one.cfg", "Lock+MergeUnlocked/LockSet", consts={"Sw": '= {"MergeUnlocked"}'}, inv=["LockSet"], props=[], expect="LockSet")
     lock_mc(res, "Lock_one.cfg", "Lock+MergeUnlocked/NoLostUpdate", consts={"Sw": '= {"MergeUnlocked"}'}, inv=["Mutex"], props=["NoLostUpdate"], expect="NoLostUpdate")
     fams = [("concmerge", ["-mode", "keyval"]), ("concmerge", ["-mode", "keyonly"]), ("concmergegate", ["-mode", "keyval"])]
-    shards = conc_shards(fams, seed, 1 if q else 12, 2 if q else 4, 8 if q else 14)
+    shards = conc_shards(fams, seed, 1 if q else 12, 2 if q else 4, 30 if q else 45)
     rs = core.drive_and_validate(res, shards, core.dev_set(), "a Merge running next to transactions changed a result, raced outside the recorded finding, or broke the lock discipline",
                                  "3-8 goroutines with mixed View/Update while another goroutine calls Merge in a loop (race-instrumented), plus a gate-forced schedule in which an update commits between Merge's scan and rewrite")
     res.cov["samples"] = core.sample_events(rs[1]["trace"], 6)
@@ -466,7 +466,7 @@ def c18(tier, seed):
     lock_mc(res, "Lock_one.cfg", "Lock(1 db, backup as two-step reader)")
     fams = [("concbackup", ["-mode", "keyval", "-rw", "fileio"]), ("concbackup", ["-mode", "keyonly", "-rw", "mmap"]),
             ("concbackup", ["-mode", "keyval", "-rw", "mmap"]), ("concbackup", ["-mode", "sparse"])]
-    shards = conc_shards(fams, seed, 1 if q else 12, 2 if q else 4, 8 if q else 14)
+    shards = conc_shards(fams, seed, 1 if q else 12, 2 if q else 4, 30 if q else 45)
     rs = core.drive_and_validate(res, shards, core.dev_set(), "a backup directory did not open, or shows something else than the state committed when its read transaction started",
                                  "a goroutine calls Backup(dir) in a loop while 3-8 goroutines write and read; every copy is opened with the same options and fully observed")
     res.cov["samples"] = [dict(e, o="...") for e in core.sample_events(rs[0]["trace"], 4, ops={"backup"})]
@@ -474,6 +474,39 @@ def c18(tier, seed):
     res.cov["rule"] = ("non-trivial = Backup calls; each is placed in the serial order after the last writer that had acquired the lock when the copy started "
                        "(gate hook inside Backup's read transaction), and TLC accepts it iff the copy opened and its full observation equals Replay(log) there")
     res.assumptions += ["quiescent backups (no concurrent writer) are the special case of this; lists/sets/sorted sets are not part of the concurrent histories"]
+    return res.finish()
+
+
+def split_file(path, n):
+    """Split a scenario file into n files with the lines dealt round-robin."""
+    outs = [open("%s.part%d" % (path, i), "w") for i in range(n)]
+    with open(path) as f:
+        for j, line in enumerate(f):
+            outs[j % n].write(line)
+    for o in outs:
+        o.close()
+    return ["%s.part%d" % (path, i) for i in range(n)]
+
+
+def c21(tier, seed):
+    res = Result("C21", tier, seed)
+    core.build()
+    q = tier == "quick"
+    path, g, n = core.gen_transitions("Codec.cfg", {} if q else {"Pairs": "= TRUE", "HugeSizes": "= TRUE"}, module="Codec", timeout=3000, heap="8g")
+    res.add_mc("Codec", g)
+    res.extra["emitted_reads"] = n
+    shards = [["@replay", "%mod=CodecTrace", "-in", p, "-mode", "codec"] for p in split_file(path, 12)]
+    rs = core.drive_and_validate(res, shards, core.dev_set(), "a stored record did not read back as written, or altered bytes were served as a record with different fields",
+                                 "every (record template, mutation) pair of Codec.tla: data entries through DataFile.ReadAt with FileIO and MMap, sparse root-index records, bucket metadata; every single-bit flip and every truncation of the stored bytes")
+    res.cov["samples"] = core.sample_events(rs[0]["trace"], 5)
+    res.cov["exhaustive"] = True
+    res.cov["distinct_nontrivial"] = n
+    res.cov["rule"] = ("every (template, mutation) pair is emitted once by TLC and executed; the recording holds the fields written and the fields read; "
+                       "TLC admits: unmutated -> a record with equal fields; mutated -> an error, 'absent', or a record with equal fields")
+    res.assumptions += ["TLA+ contributes the enumeration and the acceptance rule, not the byte layout or the CRC arithmetic (DESIGN.md)",
+                        "templates: each size field in {0,1,7}, flags {0,1,9,13}, status {0,1}, structure {0,2,4}, timestamp/TTL/tx id/file id/offset in {0,1,max}; "
+                        "varied one (quick) or two (thorough) at a time around a base template, plus all size combinations; "
+                        "the quick tier skips flips in the two high-order bytes of size fields (the reader then allocates up to 4 GB per read)"]
     return res.finish()
 
 
@@ -495,7 +528,7 @@ def c15(tier, seed):
     return res.finish()
 
 
-CHECKS = {"C14": c14, "C17": c17, "C18": c18, "C02": c02, "C22": c22, "C20": c20, "C03": c03, "C19": c19, "C04": c04, "C10": c10, "C11": c11, "C16": c16, "C09": c09, "C15": c15, "C01": c01, "C05": c05, "C06": c06, "C07": c07, "C08": c08, "C12": c12, "C13": c13}
+CHECKS = {"C21": c21, "C14": c14, "C17": c17, "C18": c18, "C02": c02, "C22": c22, "C20": c20, "C03": c03, "C19": c19, "C04": c04, "C10": c10, "C11": c11, "C16": c16, "C09": c09, "C15": c15, "C01": c01, "C05": c05, "C06": c06, "C07": c07, "C08": c08, "C12": c12, "C13": c13}
 
 
 def main(argv):
